@@ -99,7 +99,7 @@ type pItem struct {
 }
 
 func (p *pItem) GetID() string { return p.ID }
-func (p *pItem) Msgsize() int   { return 20 }
+func (p *pItem) Msgsize() int  { return 20 }
 func (p *pItem) MarshalMsg(b []byte) ([]byte, error) {
 	return append(b, []byte(fmt.Sprintf("%020d", p.V))...), nil
 }
@@ -495,10 +495,10 @@ func idStr(w string) string {
 		return idOf(n)
 	}
 	id := idOf(n)
-	if strings.HasSuffix(w, "p") && id[0] >= 'a' && id[0] <= 'f' {
-		return strings.ToUpper(id[:1]) + id[1:]
+	if strings.HasSuffix(w, "p") {
+		return strings.ToUpper(id[:1]) + id[1:] // the generator writes "p" only for ids whose first digit is a letter
 	}
-	return strings.ToUpper(id) // (also for "p" when the first digit is not a letter: no same-leaf alias exists)
+	return strings.ToUpper(id)
 }
 
 func idOf(i int) string {
@@ -615,14 +615,50 @@ func genesisLine(r *rand.Rand) string {
 	return "genesis " + strings.Join(parts, " ")
 }
 
-func up(r *rand.Rand) string {
+// up: spelling suffix for recipient id n. "p" (same-leaf spelling: the model lets reads of it see the account's
+// balance) is only written when such a spelling exists for certain: the id's first hex digit is a letter and the
+// case started from `init` (at least two accounts with different first digits, so the trie root branches).
+func up(r *rand.Rand, n int, sameLeafOK bool) string {
 	switch r.Intn(24) {
 	case 0:
 		return "u"
 	case 1, 2:
-		return "p"
+		return alias(n, sameLeafOK)
 	}
 	return ""
+}
+
+// sameLeafCase: a zero-value send to the same-leaf spelling of an account whose balance, added to the sender's,
+// overflows: sumOfFromToBalance reads the REAL balance through that spelling and rejects, where an all-upper-case
+// spelling (no leaf answers) lets the zero transfer pass (found by the seed-2 sweep: the model read 0 for both).
+func sameLeafCase() []string {
+	dst := -1 // (main has run setup(): the ids are known)
+	for i := 2; i < nIDs; i++ {
+		if c := ids[i][0]; c >= 'a' && c <= 'f' {
+			dst = i
+			break
+		}
+	}
+	if dst < 0 {
+		return []string{"init 0 2:5:0"}
+	}
+	src := 2
+	if dst == 2 {
+		src = 3
+	}
+	return []string{
+		fmt.Sprintf("init 0 0:79347:1 1:23748:2 %d:64866:0 %d:18446744073709551615:4", dst, src),
+		fmt.Sprintf("txn send %d %dp 1 0 20 5 -", src, dst),
+		fmt.Sprintf("txn send %d %du 1 0 20 5 -", src, dst),
+		fmt.Sprintf("txn send %d %dp 1 1 20 6 -", src, dst),
+	}
+}
+
+func alias(n int, sameLeafOK bool) string {
+	if id := idOf(n); sameLeafOK && id[0] >= 'a' && id[0] <= 'f' {
+		return "p"
+	}
+	return "u"
 }
 
 func gen(prop string) func(r *rand.Rand, thorough bool, i int) []string {
@@ -635,6 +671,7 @@ func gen(prop string) func(r *rand.Rand, thorough bool, i int) []string {
 		bal := make([]uint64, nIDs)
 		nonce := make([]int64, nIDs)
 		init := []string{"init", strconv.Itoa(fee)}
+		firstDigits := map[byte]bool{} // of the accounts that get a leaf: two different ones make the trie root branch
 		for k := 0; k < nIDs; k++ {
 			switch r.Intn(12) {
 			case 0:
@@ -649,10 +686,13 @@ func gen(prop string) func(r *rand.Rand, thorough bool, i int) []string {
 			}
 			if bal[k] != 0 || nonce[k] != 0 || r.Intn(2) == 0 {
 				init = append(init, fmt.Sprintf("%d:%d:%d", k, bal[k], nonce[k]))
+				firstDigits[idOf(k)[0]] = true
 			}
 		}
 		ops := []string{strings.Join(init, " ")}
+		sameLeafOK := len(firstDigits) >= 2
 		if r.Intn(6) == 0 {
+			sameLeafOK = false
 			ops = []string{genesisLine(r)}
 			for k := range nonce {
 				nonce[k] = 1 // mustInitialState gives genesis accounts nonce 1 (ids not listed have 0: a few wrong guesses)
@@ -713,13 +753,15 @@ func gen(prop string) func(r *rand.Rand, thorough bool, i int) []string {
 							parts = append(parts, fmt.Sprintf("pu,%d,%d", r.Intn(nItems), r.Intn(1000)))
 						}
 					case 2:
-						parts = append(parts, fmt.Sprintf("s,%d,%d%s,%d", r.Intn(nIDs), r.Intn(nIDs+1), up(r), amount(r, 300)))
+						dst := r.Intn(nIDs + 1)
+						parts = append(parts, fmt.Sprintf("s,%d,%d%s,%d", r.Intn(nIDs), dst, up(r, dst, sameLeafOK), amount(r, 300)))
 					default:
 						src := r.Intn(nIDs)
 						if r.Intn(2) == 0 {
 							src = []int{sender, 1}[r.Intn(2)] // the usual sources: txn sender, the contract itself
 						}
-						parts = append(parts, fmt.Sprintf("t,%d,%d%s,%d", src, r.Intn(nIDs+1), up(r), amount(r, 300)))
+						dst := r.Intn(nIDs + 1)
+						parts = append(parts, fmt.Sprintf("t,%d,%d%s,%d", src, dst, up(r, dst, sameLeafOK), amount(r, 300)))
 					}
 				}
 				res = kind
@@ -732,9 +774,9 @@ func gen(prop string) func(r *rand.Rand, thorough bool, i int) []string {
 			case 0, 1:
 				toTok += "u" // upper-case spelling of the recipient id
 			case 2, 3:
-				toTok += "p" // same-leaf spelling of the recipient id
+				toTok += alias(to, sameLeafOK) // same-leaf spelling of the recipient id (where one exists)
 			case 4:
-				toTok = strconv.Itoa(sender) + "p" // same-leaf spelling of the sender's own id
+				toTok = strconv.Itoa(sender) + alias(sender, sameLeafOK) // ... of the sender's own id
 			}
 			ops = append(ops, fmt.Sprintf("txn %s %d %s %s %d %d %d %s", typ, sender, toTok, tv, value, feeV, nn, res))
 			// optimistic nonce tracking (a wrong guess only makes a later txn invalid, which is also a case we want)
@@ -1026,15 +1068,16 @@ func main() {
 		},
 		Fixed: [][]string{
 			{"genesis 1:3999999999999999000/5:100/6:7 2:1000", "txn send 5 6 1 10 1 2 -"},
-			{"genesis 1:4000000000000000000/5:4000000000000000001"},                       // over-allocation: must panic
-			{"genesis 1:4000000000000000000/5:18446744073709551615/6:2"},                  // sum of client tokens overflows
-			{"genesis 1:3999999999999999999 2:2"},                                         // wrong total
-			{"genesis 1:18446744073709551615 2:4000000000000000001"},                      // running total overflows
+			{"genesis 1:4000000000000000000/5:4000000000000000001"},      // over-allocation: must panic
+			{"genesis 1:4000000000000000000/5:18446744073709551615/6:2"}, // sum of client tokens overflows
+			{"genesis 1:3999999999999999999 2:2"},                        // wrong total
+			{"genesis 1:18446744073709551615 2:4000000000000000001"},     // running total overflows
 
 			{"init 0 2:1000:0 3:600:0", "txn send 2 2u 1 10 0 1 -", "txn send 2 3u 1 7 0 2 -", "txn sc 2 1 1 0 0 3 ok|t,2,3u,5;t,3,2,1", "txn send 2 3u 1 0 0 1 -"},
 			{"init 1 2:1000:4 3:5:0", "txn send 2 3 1 100 10 5 -", "txn sc 2 1 1 0 10 6 ok|t,2,3,50;w,1,9;s,3,2,1", "txn sc 2 1 1 0 10 7 chg|w,1,1;t,1,3,5", "txn sc 2 1 1 0 10 8 int", "txn send 2 3 1 100 10 5 -"},
 			{"init 1 2:18446744073709551615:0 3:1:0", "txn send 2 3 1 1 0 1 -", "txn send 3 2 1 1 0 1 -", "txn send 3 2 1 2 0 1 -"},
 			{"init 1 2:100:0", "txn send 2 3 1 1 18446744073709551615 1 -", "txn send 2 3 1 4000000000000000001 0 1 -", "txn sc 2 1 1 0 1 1 ok|t,2,2,5", "txn sc 2 1 1 0 1 1 ok|t,2,3,5;t,3,4,5;t,4,2,6"},
+			sameLeafCase(),
 		},
 		Nontrivial: func(ops, outs []string) bool {
 			k := map[string]bool{}
